@@ -225,14 +225,18 @@ def ortho_truncated(ctx, shape, which, use_theta, max_rank, cplx):
             lapack.set_policy(lapack.FreePolicy(positive_spectrum='first'))
         cores = mk_cores(ctx, 'a', shape, cplx)
         t = TT(mk_cores(ctx, 'a', shape, cplx))
+        mr_arg = list(mr) if isinstance(mr, list) else mr      # the object handed to the code (a list must come back as it went in)
         if which == 'left':
-            t.ortho_left(threshold=theta, max_rank=mr)
+            t.ortho_left(threshold=theta, max_rank=mr_arg)
         elif which == 'right':
-            t.ortho_right(threshold=theta, max_rank=mr)
+            t.ortho_right(threshold=theta, max_rank=mr_arg)
         else:
-            t.ortho(threshold=theta, max_rank=mr)
+            t.ortho(threshold=theta, max_rank=mr_arg)
         tag = 'ortho_%s(theta=%s,max_rank=%s) path ranks=%s' % (which, 'sym' if use_theta else 0, max_rank, t.ranks)
         meta_ok(ctx, tag, t)
+        if isinstance(mr, list):
+            ctx.check(tag.split(' path ')[0] + ': the per-bond cap list of the caller is left unchanged (it can be reused for the next tensor)', mr_arg == mr,
+                      detail='%s -> %s' % (mr, mr_arg))
         ctx.check(tag + ': no inner rank exceeds max_rank', all(t.ranks[i] <= bound[i] for i in range(1, d)),
                   detail='%s vs bound %s' % (t.ranks, bound))
         ctx.check(tag + ': ranks never grow', all(a <= b for a, b in zip(t.ranks, shape['ranks'])))
